@@ -76,6 +76,18 @@ def _signal(seed, N, prec, variant="generic", offset=0):
     return sig.signal(seed, N, offset=offset).astype(_npdt(prec))
 
 
+def _tensor(x, variant):
+    """variant "strided": the same samples handed over as a NON-CONTIGUOUS view (every second element
+    of a larger tensor, storage offset 1) - a perfectly good 1-D signal tensor"""
+    torch = _torch()
+    if variant != "strided":
+        return torch.tensor(x)
+    big = np.empty(2 * len(x) + 1, dtype=x.dtype)
+    big[:] = 777.0
+    big[1::2] = x
+    return torch.tensor(big)[1::2]
+
+
 def _tol(prec):
     return (1e-9, 1e-12) if prec == "float64" else (2e-4, 1e-5)
 
@@ -171,7 +183,9 @@ def _stft_compare(comp, built, c, N, prec, seed, variant, functional=False):
                                case)], "exc"
     mod = built[1]
     x = _signal(seed, N, prec, variant)
-    xt = torch.tensor(x)
+    xt = _tensor(x, variant)
+    if variant == "strided":
+        tags = dict(tags, noncontiguous_input=True)
     if functional:
         rn = _call_nograd(mod, xt)
         if rn[0] != "ok":
@@ -247,7 +261,8 @@ def _stft_eval(pt, seed):
             return core.result(nontrivial=False, obs="unconstructible:" + type(e).__name__,
                                skipped=True)
         for N in _stft_lengths(L, S):
-            for variant in ("generic", "zeros") if N == L else ("generic",):
+            for variant in ("generic", "zeros", "strided") if N == L else (
+                    ("generic", "strided") if N == 3 * L + S else ("generic",)):
                 v, kind = _stft_compare(comp, built, c, N, prec, seed, variant)
                 viol.extend(v)
                 obs.add((kind, use_log, use_power, energy))
@@ -579,8 +594,27 @@ def _post_eval(pt, seed):
             viol.append(core.violation(dict(tags, what="exception", stage="construct", exc=rb[1]),
                                        "from_postprocessor raised %s: %s" % (rb[1], rb[2]), case))
             continue
+        xt = torch.tensor(x)
+        xt_before = xt.clone()
         with np.errstate(all="ignore"):
-            rg = _call_nograd(rb[1], torch.tensor(x))
+            rg = _call_nograd(rb[1], xt)
+        # PostProcessor.apply leaves its input untouched (in_place defaults to False); so must the
+        # wrapper: the caller's tensor is compared byte for byte, and a second call on the same
+        # tensor must give the same result as the first
+        if _to_np(xt).tobytes() != _to_np(xt_before).tobytes():
+            viol.append(core.violation(
+                dict(tags, what="wrapper", aspect="input_modified"),
+                "%r on shape %r: the wrapper overwrote the caller's input tensor" % (pc, shape), case))
+            continue
+        if rg[0] == "ok":
+            with np.errstate(all="ignore"):
+                rg2 = _call_nograd(rb[1], xt)
+            if rg2[0] != "ok" or _to_np(rg2[1]).tobytes() != _to_np(rg[1]).tobytes():
+                viol.append(core.violation(
+                    dict(tags, what="wrapper", aspect="second_call_differs"),
+                    "%r on shape %r: calling the wrapper twice on the same tensor gives different results"
+                    % (pc, shape), case))
+                continue
         if rg[0] != "ok":
             viol.append(core.violation(
                 dict(tags, what="exception", stage="forward", exc=rg[1]),
